@@ -366,6 +366,11 @@ func (c *VCtx) callbackCall(fr *Frame, st *State, cc *ssa.CallCommon, f *Term, a
 			stT := deref(fa.X.Type())
 			if stt, ok := stT.Underlying().(*types.Struct); ok {
 				c.pointAsserts(fr, st, "callback "+stt.Field(fa.Field).Name(), cc.Pos())
+				if fr.contract != nil && len(fr.contract.Ghost) > 0 {
+					// ghost statements at "callback <field>": after the assertions, before the callback runs
+					// (lastarg(f, i) already denotes the arguments of this call)
+					c.runGhost(fr, st, fr.contract, "callback "+stt.Field(fa.Field).Name(), nil)
+				}
 			}
 		}
 	}
